@@ -31,6 +31,11 @@ type Case struct {
 	// through an avoided class; a departure in it is reported with root=-
 	// (new) instead of being counted under that class's finding.
 	Strict bool `json:"s,omitempty"`
+	// Dual: the symbol b0, used as a variable AND as a function, is observed
+	// too (export and unexport act on both definitions of the symbol).
+	Dual bool `json:"d,omitempty"`
+	// QSym: qualified symbols are also handed to symbol-value, boundp, fboundp.
+	QSym bool `json:"q,omitempty"`
 }
 
 const slots = 3
@@ -40,6 +45,221 @@ var (
 	funNames = []string{"f0", "f1"}
 	allNames = []string{"v0", "v1", "f0", "f1"}
 )
+
+// dualName is spelled the same for its variable and its function; the model
+// keeps them as the two names vb and fb.
+const dualName = "b0"
+
+// obsName is one definition looked at by the monitor: its spelling in the
+// interpreter, its kind and its name in the model.
+type obsName struct {
+	spell string
+	kind  model.Kind
+	mname string
+}
+
+var (
+	baseObs = []obsName{{"v0", model.Var, "v0"}, {"v1", model.Var, "v1"}, {"f0", model.Fun, "f0"}, {"f1", model.Fun, "f1"}}
+	dualObs = append(append([]obsName{}, baseObs...), obsName{dualName, model.Var, "vb"}, obsName{dualName, model.Fun, "fb"})
+)
+
+// expand translates an operation of a case into the model operations it
+// consists of: export/unexport of a list of names act name by name, an
+// operation on the symbol b0 acts on its variable (vb), its function (fb) or,
+// for export and unexport, on both. nil: not expressible.
+func expand(op model.Op) (out []model.Op) {
+	names := []string{op.N}
+	if (op.K == "export" || op.K == "unexport") && strings.Contains(op.N, ",") {
+		names = strings.Split(op.N, ",")
+	}
+	for _, n := range names {
+		o := op
+		o.N = n
+		if n == dualName {
+			switch op.K {
+			case "setq", "defvar", "makunbound":
+				o.N = "vb"
+			case "defun", "fmakunbound":
+				o.N = "fb"
+			case "export", "unexport":
+				o.N = "vb"
+				out = append(out, o)
+				o.N = "fb"
+			default:
+				return nil
+			}
+		}
+		out = append(out, o)
+	}
+	return
+}
+
+// plan is what the model says about an operation before it is executed.
+type plan struct {
+	cls     string     // names the construct (after= in signatures, op: counters)
+	parts   []string   // the classes matched against the avoid set
+	ok      bool       // the property determines the outcome
+	wantErr bool       // the operation must be refused and change nothing
+	subs    []model.Op // model operations to apply
+}
+
+func routePrefix(op model.Op) string {
+	if op.T == 0 {
+		return ""
+	}
+	switch op.K {
+	case "setq", "defvar", "defun", "makunbound", "fmakunbound":
+		return "q:" // q::name
+	}
+	return "pa:" // package argument
+}
+
+// sibling tells whether a defining operation creates one kind of the symbol
+// b0 while the symbol is exported and the package either defines the other
+// kind already ("xs:") or sees the other kind through a package it uses
+// ("xp:"); "" otherwise.
+func sibling(w *model.World, sub model.Op, cls string) string {
+	sib := model.Sibling(sub.N)
+	if sib == "" || !strings.HasPrefix(cls, sub.K+"/new") {
+		return ""
+	}
+	t := w.Cur
+	if sub.T != 0 {
+		t = sub.T - 1
+	}
+	if _, has := w.Own(t, sib); has {
+		if w.Exp(t, sub.N) == model.Yes {
+			return "xs:"
+		}
+		return ""
+	}
+	// the flag may also be one the model no longer insists on (after
+	// makunbound/fmakunbound): the interpreter can still hold the placeholder
+	if e := w.Resolve(t, sib); w.Exp(t, sub.N) != model.No && (0 < len(e.Must) || 0 < len(e.May)) {
+		return "xp:"
+	}
+	return ""
+}
+
+// homeExported tells whether the definition a q::name form acts on belongs
+// to a package that exports the name.
+func homeExported(w *model.World, sub model.Op) bool {
+	save := w.Cur
+	w.Cur = sub.T - 1
+	defer func() { w.Cur = save }()
+	t, _, _ := w.Target(sub.N)
+	return w.Exp(t, sub.N) == model.Yes
+}
+
+func planOp(w *model.World, op model.Op) (p plan) {
+	if op.K == "defg" {
+		// (defun g<name> () (<name>)): a body that calls the function; no
+		// definition of the monitored names changes
+		e := w.Resolve(w.Cur, mnameOf(op.N, model.Fun))
+		switch {
+		case len(e.Must) == 1 && len(e.May) == 0:
+			p.cls = "defg/resolved"
+		case len(e.Must) == 0 && len(e.May) == 0:
+			p.cls = "defg/forward"
+		default:
+			p.cls = "defg/ambiguous"
+			return
+		}
+		p.ok = true
+		p.parts = []string{p.cls}
+		return
+	}
+	p.subs = expand(op)
+	if len(p.subs) == 0 {
+		p.cls = op.K + "/unsupported-name"
+		return
+	}
+	mw := w
+	if 1 < len(p.subs) {
+		mw = w.Clone()
+	}
+	marker := ""
+	for i, sub := range p.subs {
+		cls, ok := mw.Classify(sub)
+		if !ok {
+			p.cls, p.subs = cls, nil
+			return
+		}
+		if m := sibling(mw, sub, cls); m != "" {
+			marker = m
+		}
+		if !contains(p.parts, cls) {
+			p.parts = append(p.parts, cls)
+		}
+		if mw.ExpectError(sub) {
+			p.wantErr = true
+		}
+		if i < len(p.subs)-1 {
+			mw.Apply(sub, 0, 0)
+		}
+	}
+	p.ok = true
+	p.cls = p.parts[0]
+	for _, c := range p.parts[1:] {
+		p.cls += "&" + strings.TrimPrefix(c, op.K+"/")
+	}
+	if rp := routePrefix(op); rp != "" {
+		if rp == "q:" && op.K != "makunbound" && op.K != "fmakunbound" && homeExported(w, p.subs[0]) {
+			rp = "qx:" // the definition belongs to a package that exports the name
+		}
+		p.cls = rp + p.cls
+		p.parts = append(p.parts, p.cls)
+	}
+	if marker != "" {
+		p.cls = marker + p.cls
+		p.parts = append(p.parts, p.cls)
+	}
+	if op.K == "defun" && op.V%2 == 1 {
+		// the name written in upper case (an open finding: it is not folded)
+		p.cls = "uc:" + p.cls
+		p.parts = append(p.parts, p.cls)
+	}
+	return
+}
+
+func contains(xs []string, x string) bool {
+	for _, y := range xs {
+		if x == y {
+			return true
+		}
+	}
+	return false
+}
+
+// commit applies a planned operation to the model.
+func commit(w *model.World, p plan, val int) {
+	if p.wantErr {
+		return
+	}
+	for _, sub := range p.subs {
+		w.Apply(sub, val, val)
+	}
+}
+
+func mnameOf(spell string, k model.Kind) string {
+	if spell == dualName {
+		if k == model.Var {
+			return "vb"
+		}
+		return "fb"
+	}
+	return spell
+}
+
+// avoidedPart returns the first class of a plan that is named by an open finding.
+func avoidedPart(d *avoidSet, p plan) string {
+	for _, c := range p.parts {
+		if d.has(c) {
+			return c
+		}
+	}
+	return ""
+}
 
 // ---------------------------------------------------------------------------
 // bounded-exhaustive enumeration, reduced by the symmetry of renaming packages
@@ -259,13 +479,71 @@ var probes = []string{
 	"3| intern f0; defun f0; in 1; use 0",
 	"3| in 1; use 0; in 0; intern v0; defvar v0; in 1",
 	"3| in 1; use 0; in 0; intern f0; export f0; defun f0; unexport f0; fmakunbound f0; intern f0; defun f0",
+	// ---- round 3: the same operations by other routes
+	// the optional package argument of export/unexport/use-package/unuse-package,
+	// evaluated from another package, with every kind of designator; lists of names
+	"3| setq v0; defun f0; in 1; export v0 @0; export f0 @0 #5; use 0 @2 #6; in 2; in 1; unexport v0,f0 @0 #2; unuse 0 @2 #9",
+	"3| in 1; use 0 @2; use 1 @2 #7; in 0; setq v0; export v0; in 1; setq v0; export v0; in 0; unuse 1 @2 #13; unuse 0 @2",
+	"3| setq v0; setq v1; defun f0; export v0,v1,f0; in 1; use 0; in 0; unexport v1,f0 #1; export f0,f1 #1; defun f1",
+	"3| in 1; export v0 @1; setq v0; in 2; use 1 @2 #4; export v1 @1 #10; in 1; setq v1 #2",
+	// q::name in setq, defvar, defun from another package (exported names)
+	"3| setq v0; export v0; in 1; setq v0 @0; setq v0 @0 #2; setq v0 @0 #3; use 0; setq v0 @0",
+	"3| in 1; defvar v0 @0; defun f0 @0; in 0; export v0; export f0; in 1; use 0; defun f0 @0; defvar v0 @0 #1; in 2; defun f1 @1; defvar v1 @1",
+	"3| export v0; in 1; setq v0 @0; use 0",
+	// ... the qualified forms that do not reach the package (avoided classes)
+	"3| setq v0; in 1; setq v0 @0",
+	"3| in 1; setq v0 @0",
+	"3| setq v0; in 1; defvar v0 @0",
+	"3| in 2; defvar v0; in 0; import 2 v0; in 2; defvar v0 @0",
+	"3| in 2; setq v0; in 0; import 2 v0; in 2; setq v0 @0",
+	"3| setq v0; defun f0; in 1; makunbound v0 @0; fmakunbound f0 @0",
+	// equivalent spellings: defparameter, set, setf; strings, keywords, nicknames,
+	// package objects and upper case as designators; make-package
+	"3| setq v0 #1; setq v1 #2; setq v0 #3; defvar v1 #1; defun f0; export v0 #1; export f0 #2; export v1 #3; in 1 #1; use 0 #3; in 2 #2; use 0 #1; in 0 #3; unexport v0 #3; makunbound v1 #1; fmakunbound f0 #1",
+	"1| setq v0 #2; export v0 #1; defpackage 1 u=0 #1; defpackage 2 u=0,1 #1; in 1 #2; setq v1 #1; in 2 #3; in 0 #2; delete 2 #1; delete 1 #3; defpackage 1 u=0",
+	// operations that must be refused leave nothing behind
+	"3| setq v0; export v0; in 1; use 0; fail use; fail unuse; fail in; fail export; fail unexport; fail setq; fail setq #1; fail defun; fail defpackage; fail delete; fail rename 0; fail rename 1; defpackage 0; defpackage 1 u=0 e=v1; in 0; setq v0",
+	"3| fail setq; fail defun; setq v0; defun f0; fail setq; fail defun; export v0; fail export; fail unexport; in 1; fail use; use 0; fail unuse; fail in",
+	// names of the locked package cl seen through a user package
+	"3| locked fmakunbound; locked makunbound; locked unintern; locked unexport; locked defun; locked use-pa; locked fmakunbound-q; setq v0; export v0; in 1; use 0; locked fmakunbound; locked unexport",
+	"3| locked unexport-pa",
+	// a package does not use itself
+	"3| setq v0; export v0; use 0; unuse 0; in 1; use 0; use 1; unuse 1; use 1 @1; unuse 0 @0",
+	// one symbol as variable and function: export and unexport act on both
+	"d3| in 1; use 0; in 0; setq b0; defun b0; export b0; makunbound b0; fmakunbound b0; setq b0; defun b0; unexport b0",
+	"d3| setq b0; defun b0; export b0; in 1; use 0; in 0; unexport b0; export b0; in 2; use 0; in 0; fmakunbound b0; in 1; makunbound b0",
+	"d3| defun b0; export b0; setq b0; in 1; use 0; in 2; use 0; in 0; unexport b0",
+	"d3| in 1; setq b0; defun b0; in 0; use 1; setq b0; defun b0; in 1; export b0; in 0; makunbound b0; fmakunbound b0",
+	"d3| in 1; use 0; in 0; export b0; setq b0; defun b0",
+	"d3| in 1; use 0; in 0; export b0; defun b0; setq b0",
+	"d3| in 1; use 0; in 0; export b0; defun b0; defvar b0",
+	// defun with the name in upper case (avoided class)
+	"3| defun f0 #1",
+	"3| defun f0; defun f0 #1; in 1; defun f1 @0 #1",
+	// the placeholder of an exported, undefined symbol taken by its function
+	// while a used package supplies the variable (avoided class)
+	"d3| in 2; setq b0; in 0; use 2; export b0; in 2; export b0; in 0; defun b0; unexport b0",
+	"d3| export b0; use 1; in 1; export b0; setq b0; in 0; fmakunbound b0; defun b0; unexport b0",
+	// a function body that calls the function: redefinition, export, use, unuse
+	"3| defun f0; defg f0; defun f0; in 1; in 0; export f0; in 1; use 0; defg f0; in 0; defun f0; in 1; unuse 0; in 0; defun f0",
+	"3| defun f0; defg f0; fmakunbound f0",
+	"3| defg f0; in 1; use 0",
+	// qualified symbols handed to symbol-value, boundp and fboundp
+	"q3| setq v0; defun f0; export v0; export f0; in 1; setq v1; defun f1",
 }
 
 func parseProbe(src string) Case {
 	c := Case{Mode: "probe"}
-	if rest, strict := strings.CutPrefix(src, "!"); strict {
-		c.Strict = true
-		src = rest
+	for {
+		if rest, ok := strings.CutPrefix(src, "!"); ok {
+			c.Strict, src = true, rest
+		} else if rest, ok := strings.CutPrefix(src, "d"); ok {
+			c.Dual, src = true, rest
+		} else if rest, ok := strings.CutPrefix(src, "q"); ok {
+			c.QSym, src = true, rest
+		} else {
+			break
+		}
 	}
 	head, body, _ := strings.Cut(src, "|")
 	fmt.Sscan(head, &c.Init)
@@ -275,7 +553,27 @@ func parseProbe(src string) Case {
 			continue
 		}
 		op := model.Op{K: f[0]}
+		// trailing "@p" (the package acted on) and "#v" (spelling variant)
+		for 1 < len(f) {
+			last := f[len(f)-1]
+			if v, ok := strings.CutPrefix(last, "@"); ok {
+				fmt.Sscan(v, &op.T)
+				op.T++
+			} else if v, ok := strings.CutPrefix(last, "#"); ok {
+				fmt.Sscan(v, &op.V)
+			} else {
+				break
+			}
+			f = f[:len(f)-1]
+		}
 		switch f[0] {
+		case "locked":
+			op.N = f[1]
+		case "fail":
+			op.N = f[1]
+			if 2 < len(f) {
+				fmt.Sscan(f[2], &op.P)
+			}
 		case "in", "use", "unuse", "delete", "rename":
 			fmt.Sscan(f[1], &op.P)
 		case "import":
@@ -304,6 +602,202 @@ func parseProbe(src string) Case {
 }
 
 // ---------------------------------------------------------------------------
+// deterministic block "dual": every sequence of operations on the symbol b0
+// (a variable AND a function) in package 0 up to a length, with a package
+// that uses package 0 from the start (even k) or only at the end (odd k).
+
+var dualAlphabet = []string{"export", "unexport", "setq", "defvar", "defun", "makunbound", "fmakunbound"}
+
+func dualLen(tier string) int {
+	if tier == "thorough" {
+		return 5
+	}
+	return 4
+}
+
+func dualCount(tier string) int {
+	n, p := 0, 1
+	for l := 1; l <= dualLen(tier); l++ {
+		p *= len(dualAlphabet)
+		n += p
+	}
+	return 2 * n
+}
+
+func dualCase(k int) Case {
+	late := k%2 == 1
+	k /= 2
+	l, p := 1, len(dualAlphabet)
+	for p <= k {
+		k -= p
+		l++
+		p *= len(dualAlphabet)
+	}
+	body := make([]model.Op, l)
+	for j := l - 1; 0 <= j; j-- {
+		body[j] = model.Op{K: dualAlphabet[k%len(dualAlphabet)], N: dualName}
+		k /= len(dualAlphabet)
+	}
+	edge := []model.Op{{K: "in", P: 1}, {K: "use", P: 0}, {K: "in", P: 0}}
+	c := Case{Mode: "dual", Init: 2, Dual: true}
+	if late {
+		c.Ops = append(body, edge...)
+	} else {
+		c.Ops = append(edge, body...)
+	}
+	return c
+}
+
+// ---------------------------------------------------------------------------
+// deterministic block "imp": the Go-level (*Package).Import. Package 1
+// defines v0 and f0, package 2 uses package 0; then every sequence up to a
+// length of: package 0 imports v0 / f0 from package 1, uses / unuses package
+// 1, sets v0 / defines f0 itself; package 1 sets v0, defines f0, exports or
+// unexports both names.
+
+var impAlphabet = [][]model.Op{
+	{{K: "in", P: 0}, {K: "import", P: 1, N: "v0"}},
+	{{K: "in", P: 0}, {K: "import", P: 1, N: "f0"}},
+	{{K: "in", P: 1}, {K: "setq", N: "v0"}},
+	{{K: "in", P: 1}, {K: "defun", N: "f0"}},
+	{{K: "in", P: 1}, {K: "export", N: "v0,f0"}},
+	{{K: "in", P: 1}, {K: "unexport", N: "v0,f0"}},
+	{{K: "in", P: 0}, {K: "use", P: 1}},
+	{{K: "in", P: 0}, {K: "unuse", P: 1}},
+	{{K: "in", P: 0}, {K: "setq", N: "v0"}},
+	{{K: "in", P: 0}, {K: "defun", N: "f0"}},
+}
+
+func impLen(tier string) int {
+	if tier == "thorough" {
+		return 4
+	}
+	return 3
+}
+
+func impCount(tier string) int {
+	n, p := 0, 1
+	for l := 1; l <= impLen(tier); l++ {
+		p *= len(impAlphabet)
+		n += p
+	}
+	return n
+}
+
+func impCase(k int) Case {
+	l, p := 1, len(impAlphabet)
+	for p <= k {
+		k -= p
+		l++
+		p *= len(impAlphabet)
+	}
+	letters := make([]int, l)
+	for j := l - 1; 0 <= j; j-- {
+		letters[j] = k % len(impAlphabet)
+		k /= len(impAlphabet)
+	}
+	c := Case{Mode: "imp", Init: slots}
+	c.Ops = []model.Op{{K: "in", P: 2}, {K: "use", P: 0}, {K: "in", P: 1}, {K: "setq", N: "v0"}, {K: "defun", N: "f0"}}
+	cur := 1
+	for _, li := range letters {
+		for _, op := range impAlphabet[li] {
+			if op.K == "in" {
+				if op.P == cur {
+					continue
+				}
+				cur = op.P
+			}
+			c.Ops = append(c.Ops, op)
+		}
+	}
+	return c
+}
+
+// ---------------------------------------------------------------------------
+// deterministic block "route": every canonical history of length 1..3 with
+// its operations spelled by another route: the package an operation acts on
+// given explicitly while another package is current (package argument,
+// q::name), other designators (string, keyword nickname, package object,
+// upper case, list) and equivalent forms (defparameter, set, setf).
+
+const routeLen = 3
+
+func routeRounds(tier string) int {
+	if tier == "thorough" {
+		return 4
+	}
+	return 1
+}
+
+func routeBase() int {
+	n := 0
+	for l := 1; l <= routeLen; l++ {
+		n += countFrom(cstate{}, l)
+	}
+	return n
+}
+
+func routeCount(tier string) int { return routeBase() * routeRounds(tier) }
+
+func routeCase(k int) Case {
+	round := k / routeBase()
+	k %= routeBase()
+	rank := k
+	var base []model.Op
+	for l := 1; l <= routeLen; l++ {
+		n := countFrom(cstate{}, l)
+		if k < n {
+			base = unrank(l, k)
+			break
+		}
+		k -= n
+	}
+	c := Case{Mode: "route", Init: slots}
+	cur := 0
+	for j, op := range base {
+		h := rank + 5*j + 7*round
+		elsewhere := func(o model.Op) {
+			other := (cur + 1 + (h/2)%2) % slots
+			o.T = cur + 1
+			c.Ops = append(c.Ops, model.Op{K: "in", P: other, V: (h / 4) % 4}, o, model.Op{K: "in", P: cur})
+		}
+		switch op.K {
+		case "in":
+			op.V = h % 4
+			cur = op.P
+			c.Ops = append(c.Ops, op)
+		case "use", "unuse", "export", "unexport":
+			op.V = h % 16
+			if h%2 == 0 {
+				elsewhere(op)
+			} else {
+				c.Ops = append(c.Ops, op)
+			}
+		case "setq":
+			op.V = (h / 3) % 4
+			if h%3 == 1 {
+				elsewhere(op)
+			} else {
+				c.Ops = append(c.Ops, op)
+			}
+		case "defvar", "defun":
+			if op.K == "defvar" {
+				op.V = (h / 2) % 2 // upper case; for defun an open finding
+			}
+			if h%2 == 0 {
+				elsewhere(op)
+			} else {
+				c.Ops = append(c.Ops, op)
+			}
+		default: // makunbound, fmakunbound: upper case only (the q:: forms are an open finding)
+			op.V = h % 2
+			c.Ops = append(c.Ops, op)
+		}
+	}
+	return c
+}
+
+// ---------------------------------------------------------------------------
 // sizes
 
 func nShort(tier string) int {
@@ -320,8 +814,13 @@ func nLong(tier string) int {
 	return 1200
 }
 
+// nFixed is the number of seed-independent cases ahead of the other blocks.
+func nFixed(tier string) int {
+	return len(probes) + dualCount(tier) + routeCount(tier) + impCount(tier)
+}
+
 func nCases(tier string) int {
-	return len(probes) + exhCount(tier) + nShort(tier) + nLong(tier)
+	return nFixed(tier) + exhCount(tier) + nShort(tier) + nLong(tier)
 }
 
 // ---------------------------------------------------------------------------
@@ -400,7 +899,7 @@ var opKinds = []struct {
 }{
 	{"in", 10}, {"use", 10}, {"unuse", 7}, {"export", 12}, {"unexport", 7},
 	{"setq", 10}, {"defvar", 4}, {"defun", 10}, {"makunbound", 5}, {"fmakunbound", 5},
-	{"defpackage", 6},
+	{"defpackage", 6}, {"fail", 3}, {"defg", 2}, {"locked", 1},
 }
 
 // extKinds are only generated in histories with extended operations:
@@ -413,7 +912,13 @@ var extKinds = []struct {
 	{"import", 6}, {"delete", 3}, {"rename", 3}, {"intern", 3}, {"unintern", 3},
 }
 
-func randOp(r *rand.Rand, w *model.World, ext bool) model.Op {
+// lockedKinds: operations on names of the locked package cl that are refused
+// or ignored (unexport-pa, an open finding, is run by a probe only).
+var lockedKinds = []string{"fmakunbound", "fmakunbound-q", "makunbound", "unintern", "unexport", "defun", "use-pa"}
+
+var failKinds = []string{"use", "unuse", "in", "export", "unexport", "setq", "defun", "defpackage", "delete", "rename"}
+
+func randOp(r *rand.Rand, w *model.World, ext, dual bool) model.Op {
 	total := 0
 	for _, ok := range opKinds {
 		total += ok.w
@@ -441,6 +946,13 @@ func randOp(r *rand.Rand, w *model.World, ext bool) model.Op {
 			x -= ok.w
 		}
 	}
+	// names: in a history that looks at the symbol b0 a third of the names are b0
+	name := func(names []string) string {
+		if dual && r.IntN(3) == 0 {
+			return dualName
+		}
+		return fw.Pick(r, names)
+	}
 	op := model.Op{K: k}
 	switch k {
 	case "in", "use", "unuse", "import", "delete", "rename":
@@ -449,13 +961,23 @@ func randOp(r *rand.Rand, w *model.World, ext bool) model.Op {
 			op.N = fw.Pick(r, allNames)
 		}
 	case "export", "unexport":
-		op.N = fw.Pick(r, allNames)
-	case "setq", "defvar", "makunbound", "unintern":
+		op.N = name(allNames)
+		if r.IntN(8) == 0 { // a list of names
+			op.N += "," + name(allNames)
+		}
+	case "setq", "defvar", "makunbound":
+		op.N = name(varNames)
+	case "unintern":
 		op.N = fw.Pick(r, varNames)
 	case "intern":
 		op.N = fw.Pick(r, allNames) // a function name too: the symbol exists before its defun
-	case "defun", "fmakunbound":
-		op.N = fw.Pick(r, funNames)
+	case "defun", "fmakunbound", "defg":
+		op.N = name(funNames)
+	case "fail":
+		op.N = fw.Pick(r, failKinds)
+		op.P = r.IntN(slots)
+	case "locked":
+		op.N = fw.Pick(r, lockedKinds)
 	case "defpackage":
 		op.P = r.IntN(slots)
 		for _, q := range w.Existing() {
@@ -469,28 +991,40 @@ func randOp(r *rand.Rand, w *model.World, ext bool) model.Op {
 			}
 		}
 	}
+	// routes: a third of the operations are spelled differently, a sixth of
+	// those that can name the package they act on do so
+	if r.IntN(3) == 0 {
+		op.V = r.IntN(16)
+		if k == "defun" && r.IntN(8) != 0 {
+			op.V &^= 1 // mostly not in upper case (an open finding)
+		}
+	}
+	if model.TakesTarget(k) && r.IntN(6) == 0 {
+		op.T = 1 + r.IntN(slots)
+	}
 	return op
 }
 
 // genRandom builds a history of n steps by simulating the model: operations
 // the property does not determine are not generated, and at most the
 // operation classes in allow may be taken from the avoid set.
-func genRandom(r *rand.Rand, n, init int, allow map[string]bool, ext bool) Case {
+func genRandom(r *rand.Rand, n, init int, allow map[string]bool, ext, dual bool) Case {
 	w := model.New(slots, init)
-	c := Case{Init: init}
+	c := Case{Init: init, Dual: dual}
 	d := dirty()
 	for step := 0; len(c.Ops) < n && step < n*20; step++ {
-		op := randOp(r, w, ext)
-		cls, ok := w.Classify(op)
-		if !ok {
+		op := randOp(r, w, ext, dual)
+		p := planOp(w, op)
+		if !p.ok {
 			continue
 		}
-		if d.has(cls) && !allow[avoidKey(d, cls)] {
+		if a := avoidedPart(d, p); a != "" && !allow[avoidKey(d, a)] {
 			continue
 		}
-		if !w.ExpectError(op) {
-			w.Apply(op, len(c.Ops)+1, len(c.Ops)+1)
+		if (p.cls == "defpackage/exists" || strings.HasSuffix(p.cls, "/self")) && r.IntN(8) != 0 {
+			continue // refused or without effect: a few of them are enough
 		}
+		commit(w, p, len(c.Ops)+1)
 		c.Ops = append(c.Ops, op)
 	}
 	return c
@@ -514,11 +1048,23 @@ func gen(r *rand.Rand, i int, tier string) Case {
 		return parseProbe(probes[i])
 	}
 	i -= len(probes)
+	if i < dualCount(tier) {
+		return dualCase(i)
+	}
+	i -= dualCount(tier)
+	if i < routeCount(tier) {
+		return routeCase(i)
+	}
+	i -= routeCount(tier)
+	if i < impCount(tier) {
+		return impCase(i)
+	}
+	i -= impCount(tier)
 	ne := exhCount(tier)
 	// the long histories are spread evenly over the index space so that every
 	// worker batch gets its share of them
 	nl := nLong(tier)
-	stride := (nCases(tier) - len(probes)) / nl
+	stride := (nCases(tier) - nFixed(tier)) / nl
 	if i%stride == 0 && i/stride < nl {
 		i = ne + nShort(tier) + i/stride
 	} else {
@@ -539,14 +1085,15 @@ func gen(r *rand.Rand, i int, tier string) Case {
 	if keys := dirty().list(); 0 < len(keys) && r.IntN(4) == 0 {
 		allow[fw.Pick(r, keys)] = true
 	}
+	dual := r.IntN(3) == 0
 	if i < nShort(tier) {
 		// lengths 5..8: the part of the stated bound beyond the exhaustive depth, sampled
-		c := genRandom(r, 5+r.IntN(4), slots, allow, r.IntN(4) == 0)
+		c := genRandom(r, 5+r.IntN(4), slots, allow, r.IntN(4) == 0, dual)
 		c.Mode = "short"
 		return c
 	}
 	n := []int{12, 25, 50, 100, 200, 200}[r.IntN(6)]
-	c := genRandom(r, n, 1+r.IntN(slots), allow, r.IntN(3) == 0)
+	c := genRandom(r, n, 1+r.IntN(slots), allow, r.IntN(3) == 0, dual)
 	c.Mode = "long"
 	return c
 }
@@ -559,8 +1106,22 @@ var seq int
 type world struct {
 	scope *slip.Scope
 	names [slots]string
+	nicks [slots]string
+	bogus string // a package name that never exists
 	evals int
 	forms map[string]slip.Code // observation forms, read once per history
+	// gs: packages in which (defun g<name> () (<name>)) was evaluated
+	gs [slots]map[string]bool
+	// orphan: value tokens of deleted packages (their functions may live on in bodies)
+	orphan map[int]bool
+	rot    int // rotates the alternative observation routes; a function of the case
+	cur    int // the model's current package
+	obs    []obsName
+	qsym   bool
+	// departures seen through the additional routes body and qsym, which have
+	// signatures of their own and do not end the history
+	bodyDis, qsymDis []discrepancy
+	staleSeen        map[string]bool
 }
 
 func (rw *world) eval(src string) (slip.Object, *sl.Err) {
@@ -583,31 +1144,98 @@ func (rw *world) query(src string) (result slip.Object, err *sl.Err) {
 	return
 }
 
+// pkgD spells a package designator: quoted symbol, string, keyword of the
+// nickname, package object found by the upper-case name.
+func (rw *world) pkgD(p, v int) string {
+	switch v % 4 {
+	case 1:
+		return fmt.Sprintf("%q", rw.names[p])
+	case 2:
+		return ":" + rw.nicks[p]
+	case 3:
+		return fmt.Sprintf("(find-package %q)", strings.ToUpper(rw.names[p]))
+	}
+	return "'" + rw.names[p]
+}
+
+// symD spells the names of export/unexport: quoted symbol, string, list, upper case.
+func symD(n string, v int) string {
+	if names := strings.Split(n, ","); 1 < len(names) {
+		if v%2 == 1 {
+			return "'(\"" + strings.Join(names, "\" \"") + "\")"
+		}
+		return "'(" + strings.Join(names, " ") + ")"
+	}
+	switch v % 4 {
+	case 1:
+		return fmt.Sprintf("%q", n)
+	case 2:
+		return "'(" + n + ")"
+	case 3:
+		return "'" + strings.ToUpper(n)
+	}
+	return "'" + n
+}
+
 func (rw *world) render(op model.Op, val int) string {
+	// the package acted on, as an argument or as a prefix
+	targ, qn := "", op.N
+	if op.T != 0 {
+		targ = " " + rw.pkgD(op.T-1, op.V/4)
+		qn = rw.names[op.T-1] + "::" + op.N
+	}
+	upper := func(n string) string {
+		if op.V%2 == 1 {
+			return strings.ToUpper(n)
+		}
+		return n
+	}
 	switch op.K {
 	case "in":
-		return fmt.Sprintf("(in-package '%s)", rw.names[op.P])
+		return fmt.Sprintf("(in-package %s)", rw.pkgD(op.P, op.V))
 	case "use":
-		return fmt.Sprintf("(use-package '%s)", rw.names[op.P])
+		return fmt.Sprintf("(use-package %s%s)", rw.pkgD(op.P, op.V), targ)
 	case "unuse":
-		return fmt.Sprintf("(unuse-package '%s)", rw.names[op.P])
+		return fmt.Sprintf("(unuse-package %s%s)", rw.pkgD(op.P, op.V), targ)
 	case "export":
-		return fmt.Sprintf("(export '%s)", op.N)
+		return fmt.Sprintf("(export %s%s)", symD(op.N, op.V), targ)
 	case "unexport":
-		return fmt.Sprintf("(unexport '%s)", op.N)
+		return fmt.Sprintf("(unexport %s%s)", symD(op.N, op.V), targ)
 	case "setq":
-		return fmt.Sprintf("(setq %s %d)", op.N, val)
+		v := op.V % 4
+		if op.T != 0 && v == 1 {
+			v = 0 // defparameter takes no qualified name
+		}
+		switch v {
+		case 1:
+			return fmt.Sprintf("(defparameter %s %d)", qn, val)
+		case 2:
+			return fmt.Sprintf("(set '%s %d)", qn, val)
+		case 3:
+			return fmt.Sprintf("(setf %s %d)", qn, val)
+		}
+		return fmt.Sprintf("(setq %s %d)", qn, val)
 	case "defvar":
-		return fmt.Sprintf("(defvar %s %d)", op.N, val)
+		return fmt.Sprintf("(defvar %s %d)", upper(qn), val)
 	case "defun":
-		return fmt.Sprintf("(defun %s () %d)", op.N, val)
+		return fmt.Sprintf("(defun %s () %d)", upper(qn), val)
 	case "makunbound":
-		return fmt.Sprintf("(makunbound '%s)", op.N)
+		return fmt.Sprintf("(makunbound '%s)", upper(qn))
 	case "fmakunbound":
-		return fmt.Sprintf("(fmakunbound '%s)", op.N)
+		return fmt.Sprintf("(fmakunbound '%s)", upper(qn))
+	case "defg":
+		return fmt.Sprintf("(defun g%s () (%s))", op.N, op.N)
 	case "defpackage":
 		var b strings.Builder
-		fmt.Fprintf(&b, "(defpackage '%s (:use \"cl\"", rw.names[op.P])
+		if op.V%2 == 1 && len(op.Exp) == 0 {
+			fmt.Fprintf(&b, "(make-package '%s :nicknames '(%q) :use '(\"cl\"", rw.names[op.P], rw.nicks[op.P])
+			for _, u := range op.Use {
+				fmt.Fprintf(&b, " %q", rw.names[u])
+			}
+			b.WriteString("))")
+			return b.String()
+		}
+		fmt.Fprintf(&b, "(defpackage '%s (:nicknames %q) (:use \"cl\"", rw.names[op.P], rw.nicks[op.P])
 		for _, u := range op.Use {
 			fmt.Fprintf(&b, " %q", rw.names[u])
 		}
@@ -624,13 +1252,65 @@ func (rw *world) render(op model.Op, val int) string {
 	case "import":
 		return fmt.Sprintf("#go: (*Package %s).Import(%s, %q)", "current", rw.names[op.P], op.N)
 	case "delete":
-		return fmt.Sprintf("(delete-package '%s)", rw.names[op.P])
+		return fmt.Sprintf("(delete-package %s)", rw.pkgD(op.P, op.V))
 	case "rename":
-		return fmt.Sprintf("(rename-package '%s '%sr%d)", rw.names[op.P], rw.names[op.P], val)
-	case "intern":
-		return fmt.Sprintf("(intern %q)", op.N)
-	case "unintern":
-		return fmt.Sprintf("(unintern '%s)", op.N)
+		return fmt.Sprintf("(rename-package %s '%sr%d)", rw.pkgD(op.P, op.V), rw.names[op.P], val)
+	case "intern", "unintern":
+		// their package argument takes no keyword
+		if op.T != 0 && (op.V/4)%4 == 2 {
+			targ = " " + rw.pkgD(op.T-1, 0)
+		}
+		if op.K == "intern" {
+			return fmt.Sprintf("(intern %q%s)", op.N, targ)
+		}
+		return fmt.Sprintf("(unintern '%s%s)", op.N, targ)
+	case "locked":
+		switch op.N {
+		case "fmakunbound":
+			return "(fmakunbound 'car)"
+		case "fmakunbound-q":
+			return "(fmakunbound 'cl::car)"
+		case "makunbound":
+			return "(makunbound '*print-base*)"
+		case "unintern":
+			return "(unintern '*print-base*)"
+		case "unexport":
+			return "(unexport '(car *print-base*))"
+		case "unexport-pa":
+			return "(unexport 'car 'cl)"
+		case "defun":
+			return "(defun car (x) x)"
+		case "use-pa":
+			return fmt.Sprintf("(use-package '%s 'cl)", rw.names[rw.cur])
+		}
+	case "fail":
+		switch op.N {
+		case "use":
+			return fmt.Sprintf("(use-package '%s)", rw.bogus)
+		case "unuse":
+			return fmt.Sprintf("(unuse-package '%s)", rw.bogus)
+		case "in":
+			return fmt.Sprintf("(in-package '%s)", rw.bogus)
+		case "export":
+			return "(export 5)"
+		case "unexport":
+			return "(unexport 5)"
+		case "setq":
+			return fmt.Sprintf("(setq %s (car 5))", varNames[op.V%2])
+		case "defun":
+			return fmt.Sprintf("(defun %s)", funNames[op.V%2])
+		case "defpackage":
+			return fmt.Sprintf("(defpackage '%s (:use \"cl\" %q) (:export \"v0\" \"f0\"))", rw.bogus, rw.bogus+"y")
+		case "delete":
+			return fmt.Sprintf("(delete-package '%s)", rw.bogus)
+		case "rename":
+			// the new name is taken by the package itself or by another one
+			taken := rw.names[op.P]
+			if op.V%2 == 1 {
+				taken = rw.names[rw.cur]
+			}
+			return fmt.Sprintf("(rename-package '%s '%s)", rw.names[op.P], taken)
+		}
 	}
 	return "?"
 }
@@ -678,6 +1358,7 @@ func (rw *world) truth(src string) (bool, bool) {
 type discrepancy struct {
 	got, kind, via string
 	msg            string
+	route          string // a departure of an additional route only (signature route=..)
 }
 
 // classify names the way an observed outcome departs from the model.
@@ -701,6 +1382,28 @@ func classify(w *model.World, from int, e model.Expect, o outcome) string {
 	return "hidden-visible"
 }
 
+// pkgNames renders a list of packages as the sorted names of those that
+// belong to the history (cl and other packages are left out).
+func (rw *world) pkgNames(obj slip.Object) (out []string, ok bool) {
+	list, isList := obj.(slip.List)
+	if !isList && obj != nil {
+		return nil, false
+	}
+	for _, e := range list {
+		pk, isPkg := e.(*slip.Package)
+		if !isPkg {
+			return nil, false
+		}
+		for i, n := range rw.names {
+			if pk.Name == n {
+				out = append(out, fmt.Sprintf("p%d", i))
+			}
+		}
+	}
+	sort.Strings(out)
+	return out, true
+}
+
 // observe resolves every name from every package and returns the first
 // departure from the model (in a fixed order), or nil.
 func (rw *world) observe(x counter, w *model.World) *discrepancy {
@@ -718,19 +1421,31 @@ func (rw *world) observe(x counter, w *model.World) *discrepancy {
 			first = d
 		}
 	}
-	for _, p := range order {
+	judge := func(from int, e model.Expect, o outcome) bool {
+		return (o.bound && e.Accepts(o.val)) || (!o.bound && e.UnboundOK())
+	}
+	pn := func(src string) string { // package names as p0, p1, .. in messages
+		for i, n := range rw.names {
+			src = strings.ReplaceAll(src, n, fmt.Sprintf("p%d", i))
+			src = strings.ReplaceAll(src, strings.ToUpper(n), fmt.Sprintf("P%d", i))
+			src = strings.ReplaceAll(src, rw.nicks[i], fmt.Sprintf("n%d", i))
+		}
+		return src
+	}
+	rw.rot++
+	for pi, p := range order {
 		if _, err := rw.eval(fmt.Sprintf("(in-package '%s)", rw.names[p])); err != nil {
 			note(&discrepancy{got: "in-package-error", kind: "-", via: "-", msg: err.String()})
 			break
 		}
-		for _, n := range allNames {
-			kind := model.KindOf(n)
-			e := w.Resolve(p, n)
+		for ni, n := range rw.obs {
+			kind := n.kind
+			e := w.Resolve(p, n.mname)
 			var probe, form string
 			if kind == model.Var {
-				probe, form = fmt.Sprintf("(boundp '%s)", n), n
+				probe, form = fmt.Sprintf("(boundp '%s)", n.spell), n.spell
 			} else {
-				probe, form = fmt.Sprintf("(fboundp '%s)", n), "("+n+")"
+				probe, form = fmt.Sprintf("(fboundp '%s)", n.spell), "("+n.spell+")"
 			}
 			o := rw.resolve(form)
 			x.Cover("resolve:unq:" + kind.String())
@@ -739,7 +1454,7 @@ func (rw *world) observe(x counter, w *model.World) *discrepancy {
 			} else {
 				x.Cover("seen:unbound")
 			}
-			ok := (o.bound && e.Accepts(o.val)) || (!o.bound && e.UnboundOK())
+			ok := judge(p, e, o)
 			if !ok {
 				note(&discrepancy{got: classify(w, p, e, o), kind: kind.String(), via: "unq",
 					msg: fmt.Sprintf("in p%d, %s => %s, model: %s", p, form, o, showExpect(e))})
@@ -751,28 +1466,133 @@ func (rw *world) observe(x counter, w *model.World) *discrepancy {
 						msg: fmt.Sprintf("in p%d, %s => %v but %s => %s", p, probe, t, form, o)})
 				}
 			}
+			// the same name by another route (current package of the history
+			// only): symbol-value, funcall, function, apply, symbol-function
+			rot := rw.rot + ni
+			if pi == 0 {
+				alt, route := fmt.Sprintf("(symbol-value '%s)", n.spell), "symbol-value"
+				if kind == model.Fun {
+					switch rot % 4 {
+					case 0:
+						alt, route = fmt.Sprintf("(funcall '%s)", n.spell), "funcall"
+					case 1:
+						alt, route = fmt.Sprintf("(funcall #'%s)", n.spell), "function"
+					case 2:
+						alt, route = fmt.Sprintf("(apply '%s nil)", n.spell), "apply"
+					default:
+						alt, route = fmt.Sprintf("(funcall (symbol-function '%s))", n.spell), "symbol-function"
+					}
+				}
+				ao := rw.resolve(alt)
+				x.Cover("alt:unq:" + route)
+				if !judge(p, e, ao) {
+					note(&discrepancy{got: classify(w, p, e, ao), kind: kind.String(), via: "unq/" + route,
+						msg: fmt.Sprintf("in p%d, %s => %s, model: %s", p, alt, ao, showExpect(e))})
+				}
+			}
 			for _, q := range ex {
 				for vi, sep := range []string{"::", ":"} {
 					var qe model.Expect
 					via := "int"
 					if vi == 0 {
-						qe = w.Internal(q, n)
+						qe = w.Internal(q, n.mname)
 					} else {
-						qe = w.External(p, q, n)
+						qe = w.External(p, q, n.mname)
 						via = "ext"
 					}
-					qform := rw.names[q] + sep + n
+					qform := rw.names[q] + sep + n.spell
 					if kind == model.Fun {
 						qform = "(" + qform + ")"
 					}
 					qo := rw.resolve(qform)
 					x.Cover("resolve:" + via + ":" + kind.String())
-					if (qo.bound && qe.Accepts(qo.val)) || (!qo.bound && qe.UnboundOK()) {
-						continue
+					if !judge(q, qe, qo) {
+						note(&discrepancy{got: classify(w, q, qe, qo), kind: kind.String(), via: via,
+							msg: fmt.Sprintf("in p%d, %s => %s, model: %s", p, pn(qform), qo, showExpect(qe))})
 					}
-					note(&discrepancy{got: classify(w, q, qe, qo), kind: kind.String(), via: via,
-						msg: fmt.Sprintf("in p%d, %s => %s, model: %s", p, strings.Replace(qform, rw.names[q], fmt.Sprintf("p%d", q), 1), qo, showExpect(qe))})
+					// one of the two qualified forms also through the nickname
+					// (upper case) or through funcall of the qualified symbol
+					if pi == 0 && (rot+q+vi)%2 == 0 {
+						alt, route := strings.ToUpper(rw.nicks[q])+sep+n.spell, "nickname"
+						if kind == model.Fun {
+							alt = "(" + alt + ")"
+							if (rot/2)%2 == 0 {
+								alt, route = fmt.Sprintf("(funcall '%s%s%s)", rw.names[q], sep, n.spell), "funcall"
+							}
+						}
+						ao := rw.resolve(alt)
+						x.Cover("alt:" + via + ":" + route)
+						if !judge(q, qe, ao) {
+							note(&discrepancy{got: classify(w, q, qe, ao), kind: kind.String(), via: via + "/" + route,
+								msg: fmt.Sprintf("in p%d, %s => %s, model: %s", p, pn(alt), ao, showExpect(qe))})
+						}
+					}
+					if rw.qsym && pi == 0 {
+						// the qualified symbol as an argument of symbol-value, boundp, fboundp
+						qs := rw.names[q] + sep + n.spell
+						forms := []string{fmt.Sprintf("(boundp '%s)", qs), fmt.Sprintf("(symbol-value '%s)", qs)}
+						if kind == model.Fun {
+							forms = []string{fmt.Sprintf("(fboundp '%s)", qs)}
+						}
+						for fi, f := range forms {
+							x.Cover("alt:qsym")
+							var so outcome
+							if fi == 0 {
+								t, _ := rw.truth(f)
+								so = qo
+								so.bound = t
+							} else {
+								so = rw.resolve(f)
+							}
+							if so.bound != qo.bound || (so.bound && so.val != qo.val) {
+								rw.qsymDis = append(rw.qsymDis, discrepancy{got: "route-disagrees", kind: kind.String(), via: via,
+									route: "qsym:" + strings.Trim(strings.Fields(f)[0], "("),
+									msg:   fmt.Sprintf("in p%d, %s => %s but %s => %s", p, pn(qform), qo, pn(f), so)})
+							}
+						}
+					}
 				}
+			}
+		}
+		// the graph itself: package-use-list and package-used-by-list
+		for vi, fn := range []string{"package-use-list", "package-used-by-list"} {
+			obj, err := rw.query(fmt.Sprintf("(%s (find-package '%s))", fn, rw.names[p]))
+			x.Cover("graph:" + fn)
+			if err != nil {
+				continue // the accessor is not this property's subject
+			}
+			got, ok := rw.pkgNames(obj)
+			if !ok {
+				continue
+			}
+			var want []string
+			ids := w.UseList(p)
+			if vi == 1 {
+				ids = w.Users(p)
+			}
+			for _, q := range ids {
+				if w.Pkgs[q].Exists {
+					want = append(want, fmt.Sprintf("p%d", q))
+				}
+			}
+			sort.Strings(want)
+			if strings.Join(got, " ") != strings.Join(want, " ") {
+				note(&discrepancy{got: "graph-differs", kind: "-", via: fn,
+					msg: fmt.Sprintf("(%s p%d) => (%s), model: (%s)", fn, p, strings.Join(got, " "), strings.Join(want, " "))})
+			}
+		}
+		// bodies that call a function: never a definition that no longer exists
+		for _, gname := range sortedTrue(rw.gs[p]) {
+			o := rw.resolve("(g" + gname + ")")
+			x.Cover("body:call")
+			if !o.bound || rw.orphan[o.val] {
+				continue
+			}
+			x.Cover("body:value")
+			if _, live := w.Live(o.val); !live && !rw.staleSeen[fmt.Sprint(p, gname, o.val)] {
+				rw.staleSeen[fmt.Sprint(p, gname, o.val)] = true
+				rw.bodyDis = append(rw.bodyDis, discrepancy{got: "stale-visible", kind: "func", via: "body", route: "body",
+					msg: fmt.Sprintf("in p%d, (g%s) with the body (%s) => %d, a definition that no longer exists", p, gname, gname, o.val)})
 			}
 		}
 		if first != nil {
@@ -783,6 +1603,16 @@ func (rw *world) observe(x counter, w *model.World) *discrepancy {
 		first = &discrepancy{got: "in-package-error", kind: "-", via: "-", msg: err.String()}
 	}
 	return first
+}
+
+func sortedTrue(m map[string]bool) (out []string) {
+	for k, v := range m {
+		if v {
+			out = append(out, k)
+		}
+	}
+	sort.Strings(out)
+	return
 }
 
 func showExpect(e model.Expect) string {
@@ -822,7 +1652,11 @@ type result struct {
 	completed bool
 	tainted   bool // an operation of an avoided class was executed
 	skipped   bool // exhaustive case whose prefix already departs
+	// departures seen through the additional routes (body, qsym); the history goes on
+	extra []extraViol
 }
+
+type extraViol struct{ sig, msg string }
 
 // counter receives monitor counters; nil when a history is re-run for shrinking.
 type counter interface {
@@ -835,14 +1669,33 @@ type noCount struct{}
 func (noCount) Cover(string)       {}
 func (noCount) CoverN(string, int) {}
 
+// caseRot is a function of the case that varies the additional observation
+// routes between cases (never taken from process state: a replay sees the same).
+func caseRot(c Case) int {
+	h := len(c.Ops) * 7
+	for i, op := range c.Ops {
+		h += (i + 1) * (len(op.K) + 3*op.P + 5*len(op.N))
+		if 0 < len(op.N) {
+			h += int(op.N[len(op.N)-1])
+		}
+	}
+	return h % 1024
+}
+
 // run executes the history in fresh packages, comparing slip with the model
 // after every step (exhaustive cases: before and after the last step), and
 // stops at the first departure.
 func run(x counter, c Case) (res result) {
 	seq++
-	rw := &world{scope: slip.NewScope(), forms: map[string]slip.Code{}}
+	rw := &world{scope: slip.NewScope(), forms: map[string]slip.Code{}, orphan: map[int]bool{}, staleSeen: map[string]bool{},
+		rot: caseRot(c), obs: baseObs, qsym: c.QSym, bogus: fmt.Sprintf("k%dzz", seq)}
+	if c.Dual {
+		rw.obs = dualObs
+	}
 	for i := range rw.names {
 		rw.names[i] = fmt.Sprintf("k%dp%d", seq, i)
+		rw.nicks[i] = fmt.Sprintf("k%dn%d", seq, i)
+		rw.gs[i] = map[string]bool{}
 	}
 	defer rw.cleanup()
 	w := model.New(slots, c.Init)
@@ -861,10 +1714,27 @@ func run(x counter, c Case) (res result) {
 	defer func() {
 		x.CoverN("steps", res.step)
 		x.CoverN("slip-evaluations", rw.evals)
-		res.graph = w.Summary(allNames)
+		res.graph = w.Summary(model.Names)
 	}()
+	// departures of the additional routes: the first of each signature
+	seenExtra := map[string]bool{}
+	extras := func(after, src string, si int) {
+		for _, list := range [][]discrepancy{rw.bodyDis, rw.qsymDis} {
+			for _, dis := range list {
+				sig := fmt.Sprintf("route=%s after=%s got=%s kind=%s", dis.route, after, dis.got, dis.kind)
+				if dis.route != "body" {
+					sig = fmt.Sprintf("route=%s got=%s kind=%s via=%s", dis.route, dis.got, dis.kind, dis.via)
+				}
+				if !seenExtra[sig] {
+					seenExtra[sig] = true
+					res.extra = append(res.extra, extraViol{sig, fmt.Sprintf("step %d %s: %s", si+1, src, dis.msg)})
+				}
+			}
+		}
+		rw.bodyDis, rw.qsymDis = nil, nil
+	}
 	// initial state
-	if c.Mode == "exh" && 1 < len(c.Ops) {
+	if (c.Mode == "exh" && 1 < len(c.Ops)) || c.Mode == "dual" || c.Mode == "route" || c.Mode == "imp" {
 		// looked at by the cases of length 1
 	} else if dis := rw.observe(x, w); dis != nil {
 		res.sig = "root=- after=setup got=" + dis.got + " kind=" + dis.kind + " via=" + dis.via
@@ -872,17 +1742,19 @@ func run(x counter, c Case) (res result) {
 		return
 	}
 	for si, op := range c.Ops {
-		cls, ok := w.Classify(op)
-		if !ok {
+		p := planOp(w, op)
+		cls := p.cls
+		if !p.ok {
 			x.Cover("truncated:" + cls)
 			return
 		}
 		val := si + 1
+		rw.cur = w.Cur
 		src := rw.render(op, val)
 		res.trace = append(res.trace, src)
-		wantErr := w.ExpectError(op)
+		wantErr := p.wantErr
 		wantStatus := ""
-		if op.K == "intern" && model.KindOf(op.N) == model.Var {
+		if op.K == "intern" && op.T == 0 && model.KindOf(op.N) == model.Var {
 			wantStatus = internStatus(w, op.N) // slip's intern looks at variables only
 		}
 		var err *sl.Err
@@ -894,16 +1766,48 @@ func run(x counter, c Case) (res result) {
 		}
 		var opDis *discrepancy
 		switch {
+		case op.K == "locked":
+			// refused or ignored: the names of cl must be what they were
+			err = nil
+			v, e1 := rw.eval("(car '(7))")
+			_, e2 := rw.eval("*print-base*")
+			if e1 != nil || e2 != nil || sl.Show(v) != "7" {
+				opDis = &discrepancy{got: "locked-package-changed", kind: "-", via: "-", msg: "after " + src + " in a user package (car '(7)) or *print-base* of the locked package cl is gone"}
+				slip.CLPkg.Export("car") // repair for the histories that follow in this process
+				slip.CLPkg.Export("*print-base*")
+			}
+		case wantErr && err == nil && (op.K == "fail" || op.K == "defpackage"):
+			// whether the form must be refused is not this property's subject;
+			// what an accepted one means is not stated
+			x.Cover("truncated:" + cls + "-not-refused")
+			return
 		case wantErr && err == nil:
 			opDis = &discrepancy{got: "operation-not-refused", kind: "-", via: "-", msg: src + " must be refused (package still in use)"}
 		case wantErr:
 			err = nil // refused as documented; nothing changes
+			if op.K == "fail" {
+				x.Cover("refused:" + op.N)
+				if op.N == "defpackage" {
+					if t, ok := rw.truth(fmt.Sprintf("(find-package '%s)", rw.bogus)); ok && t {
+						opDis = &discrepancy{got: "refused-defpackage-left-a-package", kind: "-", via: "-", msg: "(find-package '" + rw.bogus + ") after the refused " + src}
+					}
+				}
+			}
 		case err != nil:
 		case op.K == "rename":
 			old := rw.names[op.P]
 			rw.names[op.P] = fmt.Sprintf("%sr%d", old, val)
 			if t, ok := rw.truth(fmt.Sprintf("(find-package '%s)", old)); !ok || t {
 				opDis = &discrepancy{got: "old-name-still-resolves", kind: "-", via: "-", msg: "(find-package '" + old + ") after " + src}
+			}
+		case op.K == "defg":
+			rw.gs[w.Cur][op.N] = true
+		case op.K == "delete":
+			rw.gs[op.P] = map[string]bool{}
+			for tok, o := range w.Origin {
+				if o.Pkg == op.P {
+					rw.orphan[tok] = true
+				}
 			}
 		case wantStatus != "":
 			got := "?"
@@ -914,15 +1818,19 @@ func run(x counter, c Case) (res result) {
 				opDis = &discrepancy{got: "intern-status", kind: "var", via: "unq", msg: fmt.Sprintf("%s => status %s, model: %s", src, got, wantStatus)}
 			}
 		}
-		if !wantErr {
-			w.Apply(op, val, val)
-		}
+		commit(w, p, val)
 		res.step++
 		x.Cover("op:" + cls)
-		if d.has(cls) {
-			x.Cover("avoided-class-executed:" + cls)
+		if op.V != 0 {
+			x.Cover(fmt.Sprintf("spelling:%s#%d", op.K, op.V%4))
+		}
+		if strings.Contains(op.N, ",") {
+			x.Cover("spelling:" + op.K + "-of-a-list")
+		}
+		if a := avoidedPart(d, p); a != "" {
+			x.Cover("avoided-class-executed:" + a)
 			if root == "-" && !c.Strict {
-				root = cls
+				root = a
 			}
 		}
 		last := si == len(c.Ops)-1
@@ -938,6 +1846,11 @@ func run(x counter, c Case) (res result) {
 			continue
 		default:
 			dis = rw.observe(x, w)
+			if root == "-" {
+				extras(op.K, src, si)
+			} else {
+				rw.bodyDis, rw.qsymDis = nil, nil
+			}
 		}
 		if dis == nil {
 			continue
@@ -992,7 +1905,7 @@ func internStatus(w *model.World, name string) string {
 // with a departure in a history free of avoided classes; the result is only
 // used to make the message of a new violation readable.
 func shrink(c Case, failStep int) (Case, result) {
-	best := Case{Mode: "shrunk", Init: c.Init, Strict: c.Strict, Ops: append([]model.Op{}, c.Ops[:failStep]...)}
+	best := Case{Mode: "shrunk", Init: c.Init, Strict: c.Strict, Dual: c.Dual, Ops: append([]model.Op{}, c.Ops[:failStep]...)}
 	bres := run(noCount{}, best)
 	if bres.sig == "" {
 		return c, bres
@@ -1008,7 +1921,7 @@ func shrink(c Case, failStep int) (Case, result) {
 			if len(best.Ops) < at+chunk {
 				continue
 			}
-			try := Case{Mode: "shrunk", Init: best.Init, Strict: best.Strict}
+			try := Case{Mode: "shrunk", Init: best.Init, Strict: best.Strict, Dual: best.Dual}
 			try.Ops = append(try.Ops, best.Ops[:at]...)
 			try.Ops = append(try.Ops, best.Ops[at+chunk:]...)
 			budget--
@@ -1044,6 +1957,9 @@ func exec(x *fw.Ctx, c Case) {
 	res := run(x, c)
 	obs := map[string]any{"trace": res.trace, "graph": res.graph}
 	x.Observe(obs)
+	for _, e := range res.extra {
+		x.Fail(e.sig, "%s | history: %s | model graph: %s", e.msg, strings.Join(res.trace, " "), res.graph)
+	}
 	switch {
 	case res.sig != "":
 		msg := res.msg + " | history: " + strings.Join(res.trace, " ") + " | model graph: " + res.graph
@@ -1072,13 +1988,18 @@ func init() {
 	fw.Register(fw.Spec[Case]{
 		ID: "C13",
 		Rule: "a case is a history of package operations (in-package, use-package, unuse-package, export, unexport, setq, defvar, defun, makunbound, fmakunbound; " +
-			"in the long block also defpackage with :use/:export and, in a third of them, delete-package, rename-package, intern, unintern and the Go-level Import) over 3 user packages x 2 variable x 2 function names, run in fresh packages; " +
-			"block 0 = 74 hand-written probe histories (seed-independent; the strict ones pass through an avoided class but must hold); " +
+			"in the seeded blocks also defpackage with :use/:export, operations that must be refused, a function body calling a monitored function and, in a third of the long ones, delete-package, rename-package, intern, unintern and the Go-level Import) " +
+			"over 3 user packages x 2 variable x 2 function names (and, in the dual block and a third of the seeded histories, the symbol b0 that is a variable AND a function), run in fresh packages; " +
+			"block 0 = hand-written probe histories (seed-independent; the strict ones pass through an avoided class but must hold); " +
+			"block 0b 'dual' = EVERY sequence of length 1..4 (quick) / 1..5 (thorough) of export, unexport, setq, defvar, defun, makunbound, fmakunbound of b0 in a package another package uses from the start or only at the end; " +
+			"block 0c 'route' = every canonical history of length 1..3 with its operations spelled by another route (package argument or q::name while another package is current, string/keyword-nickname/package-object/upper-case/list designators, defparameter/set/setf; 1 assignment of spellings quick, 4 thorough); " +
+			"block 0d 'imp' = every sequence of length 1..3 (quick) / 1..4 (thorough) of 10 steps around the Go-level Import (import a variable/a function, use/unuse the package imported from, redefinition on either side, export/unexport of both names as a list) with a third package using the importer; " +
 			"block 1 = EVERY history of length 1..4 (quick) / 1..5 (thorough) up to renaming of packages and names (bounded-exhaustive: 73 246 / 1 520 638 cases; " +
 			"each looks at the state before and after its last operation, its prefixes being cases of their own); " +
 			"block 2 = seeded histories of length 5..8 (sampled, NOT exhaustive: the stated bound 8 is only reached this way); " +
-			"block 3 = seeded histories of 12..200 steps; blocks 2 and 3 are checked after every step. " +
-			"After a step every name is resolved from every package: unqualified (value and boundp/fboundp), p:name and p::name for every p. " +
+			"block 3 = seeded histories of 12..200 steps; blocks 0, 0b, 0c, 2 and 3 are checked after every step. " +
+			"After a step every name is resolved from every package: unqualified (value and boundp/fboundp), p:name and p::name for every p; from the current package also through symbol-value, funcall, function, apply, symbol-function, the upper-case nickname and funcall of the qualified symbol (rotating); " +
+			"package-use-list and package-used-by-list of every package are compared with the graph; a body compiled earlier must not call a definition that no longer exists. " +
 			"Operation classes named by open known findings (evidence keys avoided:*) are generated in 1/4 of the seeded histories only (one class each); " +
 			"a departure after such an operation carries its class as root= in the signature. " +
 			"distinct = distinct history; non-trivial = at least one operation was executed and judged",
@@ -1095,6 +2016,8 @@ func init() {
 			"slip's behaviour is invariant under renaming of packages and names (symmetry reduction of the exhaustive block)",
 			"histories are independent: each uses fresh package names and its packages are removed afterwards",
 			"the reference model (internal/c13/model) is the trusted oracle; where the statement is silent (re-export of inherited names, export flag after makunbound, name conflicts between used packages) every reading is accepted",
+			"an operation naming the package it acts on (package argument, q::name) means the same operation evaluated with that package current; export and unexport act on the variable and on the function of a symbol",
+			"whether a malformed or impossible operation must be refused is not judged (an accepted one ends the history); a refused one must leave every resolution as it was",
 		},
 	})
 }
